@@ -2,7 +2,8 @@
    Only the property theorems, closed by [exact]; the model (StaticPerm.v) mirrors
    utility/static_permutation.hpp and is tied to it by the compile-time correspondence check. *)
 From Coq Require Import List Arith NArith Sorted Permutation.
-From Covfie Require Import StaticPerm.
+From Covfie Require Import StaticPerm Refine_StaticPerm.
+From Covfie.gen Require Import Gen_StaticPerm.
 Import ListNotations.
 
 Theorem C20_sort_is_ascending : forall l, StronglySorted N.le (sort l).
@@ -17,6 +18,10 @@ Proof. exact sort_unique. Qed.
 
 Theorem C20_is_permutation_iff : forall a b, is_perm a b = true <-> Permutation a b.
 Proof. exact is_perm_iff. Qed.
+
+(* the equations of the metaprogram as they stand in static_permutation.hpp on this run are, one for one, the model's *)
+Theorem C20_equations_are_the_sources : sp_equations = model_equations /\ sp_bases = model_bases /\ sp_problems = O.
+Proof. exact (conj equations_are_the_models (conj predicate_is_the_models source_read_completely)). Qed.
 
 Print Assumptions C20_sort_is_ascending.
 Print Assumptions C20_sort_same_multiset.
